@@ -13,9 +13,11 @@
    It is FALSE of the faithful model (and of the code) on two input classes, each with a witness:
      C17_disconnect_in_wait_refuted      (F3) connection lost during the descriptor wait: listen() never fires, listener stays
      C17_stealth_several_clients_refuted (F4) stealth authentication with several clients: the address reports no hostname
+     C17_already_configured_refuted      (F5) the directory is already configured: a fresh port is bound, Tor is told nothing
    Repaired in /repo and now covered by the theorems (regression anchors on the old witnesses):
      C17_late_refusal_now_accepted       (was F1, fix 64ae05b) version 3 + RSA1024 key: constructor and string parser refuse at once
      C17_string_route_now_accepted       (was F2, fix d08dcab) onion:...hiddenServiceDir=..:singleHop=true refused by the parser
+     C17_already_configured_no_leak_now_accepted (was F6, fix 0104264) already-configured directory beside an authenticated service
    What IS proved:
      for ALL configurations, ports and histories (unbounded):
        C17_no_leak_on_failure              after listen() has failed no local listener is open
@@ -26,9 +28,9 @@
      for the whole (finite) option space of the three routes (972 + 324 + 2100 requests), any ports, any script:
        C17_invalid_refused_early           an invalid combination is refused by the constructing call and nothing at
                                            all has happened by then (and C17_valid_constructed: a valid one is constructed)
-     for the finite product  option space x {one, two clients} x {config ready, pending} x {bind ok, fails} x 16 fault scripts,
+     for the finite product  option space x {one, two clients} x {directory new, already configured} x {config ready, pending} x {bind ok, fails} x 17 fault scripts,
      public port 80, bound port 45017 (bounds stated in the theorem):
-       C17_oracle_on_fault_product_partial the full statement outside F3 and F4 *)
+       C17_oracle_on_fault_product_partial the full statement outside F3, F4 and F5 *)
 From Coq Require Import List Bool Arith NArith.
 From TxVerif Require Import Lib.ListSet Spec.C15 Spec.C17 Model.DescUpload Model.Listen Proofs.C15Proofs Proofs.C17Proofs.
 Import ListNotations.
@@ -50,8 +52,8 @@ Theorem C17_resolves_after_descriptor : forall c q ops m op pp oo,
 Proof. intros c q ops. exact (listen_follows_create c q ops). Qed.
 Print Assumptions C17_resolves_after_descriptor.
 
-Theorem C17_invalid_refused_early : forall r pub bound pend bind two ops,
-  let c := {| g_route := r; g_pub := pub; g_bound := bound; g_pending := pend; g_bind_ok := bind; g_two_clients := two |} in
+Theorem C17_invalid_refused_early : forall r pub bound pend bind two same ops,
+  let c := {| g_route := r; g_pub := pub; g_bound := bound; g_pending := pend; g_bind_ok := bind; g_two_clients := two; g_same_dir := same |} in
   valid c = false -> lrun c ops = [{| l_evs := [ORefused]; l_open := 0 |}].
 Proof. exact invalid_refused_early. Qed.
 Print Assumptions C17_invalid_refused_early.
@@ -60,10 +62,11 @@ Theorem C17_valid_constructed : forall r, accepted_ok r = true.
 Proof. exact accepted_ok_all. Qed.
 Print Assumptions C17_valid_constructed.
 
-Theorem C17_oracle_on_fault_product_partial : forall r pend bind two ops,
+Theorem C17_oracle_on_fault_product_partial : forall r pend bind two same ops,
   In ops fault_scripts ->
-  let c := {| g_route := r; g_pub := 80; g_bound := 45017; g_pending := pend; g_bind_ok := bind; g_two_clients := two |} in
+  let c := {| g_route := r; g_pub := 80; g_bound := 45017; g_pending := pend; g_bind_ok := bind; g_two_clients := two; g_same_dir := same |} in
   wf c ops = true -> disconnect_while_waiting c ops = false -> stealth_several_clients c = false ->
+  directory_already_configured c = false ->
   oracle c ops (lrun c ops) = true.
 Proof. exact oracle_on_product. Qed.
 Print Assumptions C17_oracle_on_fault_product_partial.
@@ -78,11 +81,26 @@ Theorem C17_stealth_several_clients_refuted :
 Proof. exact stealth_two_clients_refuted. Qed.
 Print Assumptions C17_stealth_several_clients_refuted.
 
+Theorem C17_already_configured_refuted :
+  exists c ops, wf c ops = true /\ disconnect_while_waiting c ops = false /\ stealth_several_clients c = false
+    /\ oracle c ops (lrun c ops) = false.
+Proof. exact already_configured_refuted. Qed.
+Print Assumptions C17_already_configured_refuted.
+
+Theorem C17_already_configured_no_leak_now_accepted :
+  let c := {| g_route := RCtor {| a_eph := TNone; a_hsdir := true; a_auth := ANone; a_stealth_kw := false;
+                                  a_key := KNone; a_ver := VNone; a_single := TNone |};
+              g_pub := 80; g_bound := 45017; g_pending := false; g_bind_ok := true; g_two_clients := false;
+              g_same_dir := true |} in
+  no_leak false (lrun c []) = true /\ flat_map (fun r => results (l_evs r)) (lrun c []) = [LOk true true true].
+Proof. exact already_configured_no_leak_now_accepted. Qed.
+Print Assumptions C17_already_configured_no_leak_now_accepted.
+
 (* basic authentication with two clients (one shared hostname): the address reports it *)
 Theorem C17_basic_two_clients_reported :
   let c := {| g_route := RCtor {| a_eph := TNone; a_hsdir := false; a_auth := ABasic; a_stealth_kw := false;
                                   a_key := KNone; a_ver := V2; a_single := TNone |};
-              g_pub := 80; g_bound := 45017; g_pending := false; g_bind_ok := true; g_two_clients := true |} in
+              g_pub := 80; g_bound := 45017; g_pending := false; g_bind_ok := true; g_two_clients := true; g_same_dir := false |} in
   let ops := [LDesc Reply; LDesc (Ev KUpload 1 1); LDesc (Ev KUploaded 1 1)] in
   oracle c ops (lrun c ops) = true
   /\ flat_map (fun r => results (l_evs r)) (lrun c ops) = [LOk true true true].
@@ -115,7 +133,7 @@ Print Assumptions C17_string_route_now_accepted.
 Example C17_nonvacuous :
   let c := {| g_route := RCtor {| a_eph := TNone; a_hsdir := true; a_auth := AStealth; a_stealth_kw := false;
                                   a_key := KNone; a_ver := V2; a_single := TNone |};
-              g_pub := 443; g_bound := 45017; g_pending := true; g_bind_ok := true; g_two_clients := false |} in
+              g_pub := 443; g_bound := 45017; g_pending := true; g_bind_ok := true; g_two_clients := false; g_same_dir := false |} in
   let ops := [LCfgOk; LDesc Reply; LDesc (Ev KUpload 1 1); LDesc (Ev KUpload 1 2); LDesc (Ev KFailed 1 1);
               LDesc (Ev KUploaded 1 2); LStop] in
   wf c ops = true /\ oracle c ops (lrun c ops) = true
